@@ -1698,14 +1698,12 @@ impl<'a> CompositionGraphEncoder<'a> {
             assert!(prev.is_none());
         }
 
-        // Encode the exports, skipping any definitions as they've
-        // already been exported
-        for (name, node) in self
-            .0
-            .exports
-            .iter()
-            .filter(|(_, n)| !matches!(self.0.graph[**n].kind, NodeKind::Definition))
-        {
+        // Encode the exports, skipping the name a definition has
+        // already been exported with
+        for (name, node) in self.0.exports.iter().filter(|(name, n)| {
+            let node = &self.0.graph[**n];
+            !matches!(node.kind, NodeKind::Definition) || node.export.as_ref() != Some(*name)
+        }) {
             let index = state.node_indexes[node];
             let node = &self.0.graph[*node];
             state
